@@ -203,6 +203,9 @@ class Engine:
         r, m = "unknown", None
         plan = [(self.seed, self.fast_ms), ("cvc5", 10), (self.seed + 1, self.fast_ms * 4),
                 (self.seed + 2, self.timeout_ms), ("cvc5", 40), (self.seed + 3, self.timeout_ms)]
+        if getattr(self, "light", False):
+            # witnesses for the differential validation are optional: a cheap attempt, or none
+            plan = [(self.seed, self.fast_ms * 2), ("cvc5", 5)]
         if self.cvc5_streak >= 2 or self.prefer_cvc5:
             # z3's quick attempt keeps failing where cvc5 answers at once: ask cvc5 first for a while
             plan = [("cvc5", 5)] + plan
